@@ -49,7 +49,10 @@ RULE = ("library = random folder tree (depth<=4, 0..7 items per folder: files / 
         "size missing / 0 / n, dates, webUrl, parentReference (truthful), fileSystemInfo (with other timestamps), unrelated facets, "
         "file facet {} / mimeType / hashes; answers with / without @odata.context, @odata.count, `value` on empty pages. "
         "20% of the filtered calls go through list_files_modified_since / list_files_created_since. The driver receives RAW items; "
-        "what an item is, is decided by the Lean model (classify)")
+        "what an item is, is decided by the Lean model (classify). IDENTITY: in ~40% of the libraries 60-90% of the FILE items "
+        "come without `id`, in ~25% half of the files are copies (name, dates) of a file in another folder. FULL FNMATCH SYNTAX: "
+        "45% of the pattern filters (and all of the directed stream c18.run/glob) are written for files in sub-folders with "
+        "character classes [seq] / [!seq] / ranges / ? / * anywhere (folder part, before the first wildcard), 20% near misses")
 ASSUMPTIONS = [
     "file timestamps carry a zone (Graph emits ...Z); filter bounds are timezone-aware datetimes (a naive bound makes "
     "Python raise TypeError inside FileFilter.matches; not part of the property's quantifier)",
@@ -133,6 +136,12 @@ def gen_lib(rng, max_depth=4, max_items=7, budget=None):
     counter = [0]
     base_s = 1705312800 + rng.randint(-5, 5) * 86400
     budget = budget or [rng.choice([3, 8, 20, 45])]
+    # IDENTITY of the items: `id` is an optional member of a FILE item (a folder needs it to be listed); in ~1/4 of
+    # the libraries most files come without it, and in ~1/4 files are copies (same name, same dates) of a file in
+    # another folder: whatever a listing keys on (id, name, dates), several files agree on it
+    p_noid = rng.choice([0.0, 0.0, 0.0, 0.6, 0.9])
+    p_copy = rng.choice([0.0, 0.0, 0.0, 0.5])
+    made = []
 
     def new_id():
         counter[0] += 1
@@ -149,11 +158,19 @@ def gen_lib(rng, max_depth=4, max_items=7, budget=None):
             r = rng.random()
             if r < 0.55:
                 nm = rng.choice(_NAME_STEMS) + rng.choice(_EXTS)
+                src = rng.choice(made) if made and p_copy and rng.random() < p_copy else None
+                if src is not None and src["name"] not in used:
+                    nm = src["name"]
                 while nm in used:
                     nm = "c" + nm
                 used.add(nm)
-                node = {"k": "file", "name": nm, "id": new_id(), "created": _ts(rng, base_s), "modified": _ts(rng, base_s),
+                fid = new_id()
+                node = {"k": "file", "name": nm, "id": None if p_noid and rng.random() < p_noid else fid,
+                        "created": _ts(rng, base_s), "modified": _ts(rng, base_s),
                         "opt": rng.randint(0, 15) | (rng.choice([0, 0, rng.randint(0, 31)]) << 4)}
+                if src is not None and nm == src["name"]:
+                    node["created"], node["modified"] = src["created"], src["modified"]
+                made.append(node)
                 if rng.random() < 0.02:
                     node["name"] = None      # `name` key missing
                 nodes.append(node)
@@ -228,6 +245,8 @@ def item_json(n, parent="", pid=None):
     if o & 256:
         facet["hashes"] = {"quickXorHash": "AAAA"}
     d = {"id": n["id"], "file": facet}
+    if n["id"] is None:
+        del d["id"]              # optional member missing
     if n["name"] is not None:
         d["name"] = n["name"]
     if n["created"] is not None:
@@ -487,13 +506,72 @@ def all_files(lib, parent=""):
     out = []
     for n in lib:
         if n["k"] == "file":
-            out.append((n["name"] if n["name"] is not None else "", n["id"], n["created"], n["modified"], parent))
+            out.append((n["name"] if n["name"] is not None else "", n["id"] if n["id"] is not None else "", n["created"], n["modified"], parent))
         elif n["k"] == "folder":
             out += all_files(n["children"], f"{parent}/{n['name']}" if parent else n["name"])
     return out
 
 
-def gen_filter(rng, lib):
+_CLASS_OK = "ABCDEFGHIJKLMNOPQRSTUVWXYZabcdefghijklmnopqrstuvwxyz0123456789"
+
+
+def glob_from_path(rng, full, hit=True):
+    """an fnmatch pattern written FOR the path `full` in the full fnmatch syntax: literal text, `?`, `*` (which spans
+    '/') and character classes `[seq]`, `[!seq]`, `[a-z]` placed anywhere - also in the folder part and before the
+    first `*` / `?`.  `hit`: every replacement accepts the character it replaces (the pattern matches `full`);
+    otherwise one class is turned against its character (the pattern is a near miss).  Classes are written only
+    for ASCII letters / digits and contain only such characters (no `]`, `\\`, `^`, `-` as members)."""
+    cand = [i for i, ch in enumerate(full) if ch in _CLASS_OK]
+    if not cand:
+        return full
+    spoil = None if hit else rng.choice(cand)
+    n_cls = rng.choice([1, 1, 2, 3])
+    at = set(rng.sample(cand, min(n_cls, len(cand)))) | ({spoil} if spoil is not None else set())
+    star = rng.random() < 0.6
+    cut = rng.randrange(len(full) + 1) if star else None       # `*` replaces a stretch starting here
+    cut_len = rng.choice([0, 1, 3, len(full)]) if star else 0
+    out = []
+    i = 0
+    while i < len(full):
+        ch = full[i]
+        if cut is not None and i == cut:
+            out.append("*")
+            if cut_len and not any(cut <= j < cut + cut_len for j in at):
+                i += cut_len
+                continue
+        if i in at:
+            others = "".join(rng.sample([c for c in _CLASS_OK if c != ch], rng.randint(0, 3)))
+            bad = (i == spoil)
+            form = rng.randrange(4)
+            if form == 0:                                   # [seq] with / without the character
+                mem = list(others + ("" if bad else ch)) or ["0" if ch != "0" else "1"]
+                rng.shuffle(mem)
+                out.append("[" + "".join(mem) + "]")
+            elif form == 1:                                 # [!seq]
+                mem = list((others or ("z" if ch != "z" else "y")) + (ch if bad else ""))
+                rng.shuffle(mem)
+                out.append("[!" + "".join(mem) + "]")
+            elif form == 2:                                 # range
+                lo, hi = ("a", "z") if ch.islower() else ("A", "Z") if ch.isupper() else ("0", "9")
+                if bad:
+                    lo, hi = ("A", "Z") if ch.islower() else ("a", "z")
+                out.append(f"[{lo}-{hi}]" if rng.random() < 0.6 else f"[_{lo}-{hi}{others}]")
+            else:                                           # both cases of a letter / a digit class
+                mem = (ch.lower() + ch.upper()) if ch.isalpha() else "0123456789"
+                if bad:
+                    mem = "".join(c for c in mem if c != ch) or "Q"
+                out.append("[" + mem + "]")
+        elif ch in _CLASS_OK and rng.random() < 0.05:
+            out.append("?")
+        else:
+            out.append(ch)
+        i += 1
+    if cut is not None and cut == len(full):
+        out.append("*")
+    return "".join(out)
+
+
+def gen_filter(rng, lib, focus=None):
     files = all_files(lib)
     stamps = [t for f in files for t in (ref_ticks(f[2]), ref_ticks(f[3])) if t is not None]
 
@@ -511,7 +589,7 @@ def gen_filter(rng, lib):
             f[key] = bound()
     if rng.random() < 0.35:
         f["exts"] = rng.sample([".pdf", ".PDF", ".docx", ".Docx", ".txt", ".gz", ".tar.gz", "pdf", ".p", ".bak", ".MD", "f"], rng.randint(1, 3))
-    if rng.random() < 0.35:
+    if rng.random() < 0.35 or focus == "glob":
         pats = ["*", "*.pdf", "*.PDF", "*/*", "*/*/*", "Reports/*", "Documents/*.docx", "2024-*/*", "?eport*", "*report*", "*.t?t",
                 "*/Annual Report*", "Archive/*/*", "*%*", "*#*", "a.b/*", "*/a.b*", "report.pdf", "*ü*", "*日本*", "", "*/"]
         if files and rng.random() < 0.5:
@@ -520,6 +598,16 @@ def gen_filter(rng, lib):
             if "[" not in full:
                 pats += [full, nm, par + "/*" if par else "*", full[:-1] + "?", "*" + full[len(full) // 2:]]
         f["pats"] = rng.sample(pats, rng.randint(1, 2))
+        deep = [m for m in files if m[4] and not any(c in (m[4] + m[0]) for c in "[]*?")]
+        if deep and (rng.random() < 0.45 or focus == "glob"):
+            # the full fnmatch syntax, written for files that lie in SUB-FOLDERS (the deeper the better): classes
+            # in the folder part, before the first `*`; alone or next to an unrelated pattern; sometimes a near miss
+            deep.sort(key=lambda m: m[4].count("/"))
+            nm, _, _, _, par = rng.choice(deep[len(deep) // 2:] if rng.random() < 0.6 else deep)
+            own = [glob_from_path(rng, f"{par}/{nm}", hit=rng.random() < 0.8) for _ in range(rng.choice([1, 1, 2]))]
+            if rng.random() < 0.5:
+                own[0] = glob_from_path(rng, par, hit=rng.random() < 0.85) + rng.choice(["/*", "/*", "/*" + nm[-3:], "*"])
+            f["pats"] = own + (rng.sample(f["pats"], 1) if rng.random() < 0.3 else [])
     return f
 
 
@@ -895,16 +983,25 @@ def _fdesc(f):
 
 
 # ============================================================================ case streams
-def gen_case(rng, with_fault=None, filtered=None):
-    lib = gen_lib(rng)
+def gen_case(rng, with_fault=None, filtered=None, focus=None):
+    """`focus`='glob': a filtered call whose patterns use the full fnmatch syntax and are written for files in
+    sub-folders of a library that has some (directed stream: the patterns alone decide what is listed)"""
+    lib = gen_lib(rng) if focus is None else gen_lib(rng, budget=[rng.choice([8, 20, 45])])
     page = rng.choice([1, 1, 2, 3, 5, 100])
     filtered = rng.random() < 0.5 if filtered is None else filtered
-    call = {"kind": "filtered", "filter": gen_filter(rng, lib)} if filtered else {"kind": "all"}
-    if filtered and rng.random() < 0.45:
+    call = {"kind": "filtered", "filter": gen_filter(rng, lib, focus)} if filtered else {"kind": "all"}
+    if focus == "glob":
+        call["filter"].update(ca=None, cb=None, ma=None, mb=None, exts=[])
+        if rng.random() < 0.25:
+            # start folders that are ancestors of the files the patterns were written for
+            anc = sorted({"/".join(p.split("/")[:k]) for p in all_folders(lib) for k in range(1, p.count("/") + 2)})
+            if anc:
+                call["filter"]["folders"] = [rng.choice(anc)]
+    elif filtered and rng.random() < 0.45:
         call["filter"]["folders"] = gen_folders(rng, lib)
         if rng.random() < 0.5:                       # mostly look at the start folders themselves
             call["filter"].update(ca=None, cb=None, ma=None, mb=None, pats=[], exts=[])
-    if filtered and rng.random() < 0.2:
+    if filtered and focus is None and rng.random() < 0.2:
         # the convenience wrappers list_files_modified_since / list_files_created_since (also "filtered listings"):
         # one inclusive lower bound, optional extensions and start folders
         f = call["filter"]
@@ -997,6 +1094,17 @@ def _case_stats(ctx, case, real):
     _lib_stats(ctx, case["lib"])
     ctx.count("page_size/" + str(case["page"]) + ("/irregular" if case.get("split") else ""))
     ctx.count("fault/" + (case["fault"]["kind"] if case.get("fault") else "none"))
+    fs = all_files(case["lib"])
+    if sum(1 for m in fs if m[1] == "") >= 2:
+        ctx.count("identity/two or more files without id")
+    if len({(m[0], m[2], m[3]) for m in fs}) < len(fs):
+        ctx.count("identity/files equal up to id and folder")
+    pats = case["calls"][0].get("filter", {}).get("pats", []) if case["calls"][0]["kind"] == "filtered" else []
+    if any("[" in p for p in pats):
+        deep = any(m[4] and any(fnmatch.fnmatchcase(f"{m[4]}/{m[0]}", p) for p in pats) for m in fs)
+        ctx.count("patterns/character class" + ("/matching a file in a sub-folder" if deep else ""))
+        if any("[" in re.split(r"[*?]", p)[0] for p in pats):
+            ctx.count("patterns/character class before the first * or ?")
     fl = case["calls"][0].get("filter", {}).get("folders") if case["calls"][0]["kind"] == "filtered" else None
     if fl:
         ctx.count("start_folders/" + str(len(fl)) + ("" if not any(_related(a, b) for i, a in enumerate(fl) for b in fl[i + 1:]) else "/related"))
@@ -1039,6 +1147,9 @@ def correspondence(ctx):
     # 2. structured stream: random libraries x calls x (fault + retry)
     cases = [gen_case(rng) for _ in range(ctx.n(1500, 30000))]
     mism += _run_cases(ctx, cases, broken, "random")
+    # 2b. directed: patterns in the full fnmatch syntax (classes, `?`, `*` anywhere) written for files in sub-folders
+    globs = [gen_case(rng, with_fault=(rng.random() < 0.25), filtered=True, focus="glob") for _ in range(ctx.n(300, 4000))]
+    mism += _run_cases(ctx, globs, broken, "glob")
     for c in cases[:3]:
         ctx.sample({"page": c["page"], "nodes": lib_size(c["lib"]), "call": c["calls"][0]["kind"],
                     "fault": c.get("fault"), "impl": [{k: v for k, v in r.items() if k != "files"} | ({"n_files": len(r["files"])} if "files" in r else {})
@@ -1260,6 +1371,8 @@ def search(ctx, broken):
     # then the general streams
     for _ in range(ctx.n(250, 4000)):
         run(gen_case(rng))
+    for _ in range(ctx.n(200, 2500)):
+        run(gen_case(rng, with_fault=False, filtered=True, focus="glob"))
     for _ in range(ctx.n(4, 30)):
         lib = gen_lib(rng, budget=[rng.choice([4, 9, 14])])
         for case in every_fault_cases(rng, lib, rng.choice([1, 2]), {"kind": "all"}):
